@@ -22,8 +22,8 @@ EXTENDS HGX, Dec, Derive, Json, IOUtils, TLCExt
 VARIABLES ti, li, store, nbad, nev, seen
 tvars == <<ti, li, store, nbad, nev, seen>>
 
-Input  == JsonDeserialize(IOEnv.TRACE_FILE)
-Traces == Input.traces
+\* the batch is deserialised once (register 42), not at every step
+Traces == TLCGet(42)
 
 ---------------------------------------------------------------------------
 (* Decoding (keys, states: module Dec) *)
@@ -191,7 +191,8 @@ HashClauses(ev, Q) ==
    <<"different_content_different_hash", ev.digest \in DOMAIN seen => seen[ev.digest] = <<ev.lab, Q>>>>}
 
 ---------------------------------------------------------------------------
-TInit == ti = 1 /\ li = 1 /\ store = <<>> /\ nbad = 0 /\ nev = 0 /\ seen = <<>>
+TInit == /\ ti = 1 /\ li = 1 /\ store = <<>> /\ nbad = 0 /\ nev = 0 /\ seen = <<>>
+         /\ TLCSet(42, JsonDeserialize(IOEnv.TRACE_FILE).traces)
 
 Judge(ev) ==
   LET o   == ev.obj
